@@ -321,35 +321,25 @@ func (c *Config) WriteYAML(path, basedir string) error {
 	return os.WriteFile(path, []byte(c.YAML(basedir)), 0o600)
 }
 
-// OpenDir builds a store.Dir either from YAML (the loader is then under test)
-// or in code.
+// OpenDir builds a store.Dir for the configuration.  It always goes through the YAML loader (the harness then does not depend
+// on the field types of the exported parameter structs; viaYAML only chooses where the temporary file is written).
 func (c *Config) OpenDir(basedir string, viaYAML bool) (*store.Dir, error) {
-	if viaYAML {
-		f, err := os.CreateTemp(filepath.Dir(basedir), "cfg-*.yaml")
-		if err != nil {
-			return nil, err
-		}
-		f.Close()
-		defer os.Remove(f.Name())
-		if err := c.WriteYAML(f.Name(), basedir); err != nil {
-			return nil, err
-		}
-		return store.NewDirFromConfig(f.Name())
+	dir := filepath.Dir(basedir)
+	if !viaYAML {
+		dir = os.TempDir()
 	}
-	d := store.NewDir(basedir)
-	for _, s := range c.Sets {
-		var h store.Hasher
-		var err error
-		if s.Alg == AlgScrypt {
-			h, err = store.NewScryptAuthHasher(&store.ScryptAuthParams{HmacKeyBase64: base64.StdEncoding.EncodeToString(s.HmacKey), Cost: s.Cost, R: s.R, P: s.P})
-		} else {
-			h, err = store.NewArgon2IDHasher(&store.Argon2IDParams{Time: s.Time, Memory: s.Memory, Threads: s.Threads, Length: s.Length})
-		}
-		if err != nil {
-			return nil, err
-		}
-		d.Params[s.ID] = h
+	f, err := os.CreateTemp(dir, "cfg-*.yaml")
+	if err != nil {
+		return nil, err
 	}
-	d.Default = c.Default
+	f.Close()
+	defer os.Remove(f.Name())
+	if err := c.WriteYAML(f.Name(), basedir); err != nil {
+		return nil, err
+	}
+	d, err := store.NewDirFromConfig(f.Name())
+	if err != nil {
+		return nil, err
+	}
 	return d, nil
 }
